@@ -289,10 +289,16 @@ pub(crate) fn cast_list_values<O: OffsetSizeTrait>(
     cast_options: &CastOptions,
 ) -> Result<ArrayRef, ArrowError> {
     let list = array.as_list::<O>();
-    let values = cast_with_options(list.values(), to.data_type(), cast_options)?;
+    // Cast only the child range the offsets refer to: child values outside it (e.g. of a
+    // sliced list array) are not part of the array and must not be able to fail the cast
+    let offsets = list.offsets();
+    let (start, end) = (offsets[0], offsets[offsets.len() - 1]);
+    let child = list.values().slice(start.as_usize(), (end - start).as_usize());
+    let values = cast_with_options(&child, to.data_type(), cast_options)?;
+    let offsets = OffsetBuffer::new(offsets.iter().map(|o| *o - start).collect());
     Ok(Arc::new(GenericListArray::<O>::try_new(
         to.clone(),
-        list.offsets().clone(),
+        offsets,
         values,
         list.nulls().cloned(),
     )?))
@@ -305,10 +311,20 @@ pub(crate) fn cast_list_view_values<O: OffsetSizeTrait>(
     cast_options: &CastOptions,
 ) -> Result<ArrayRef, ArrowError> {
     let list = array.as_list_view::<O>();
-    let values = cast_with_options(list.values(), to.data_type(), cast_options)?;
+    // Cast only the child range spanned by the views (see `cast_list_values`)
+    let views = list.offsets().iter().zip(list.sizes().iter());
+    let spans = views.filter(|(_, s)| s.as_usize() > 0);
+    let (start, end) = spans.fold((usize::MAX, 0), |(lo, hi), (o, s)| {
+        (lo.min(o.as_usize()), hi.max(o.as_usize() + s.as_usize()))
+    });
+    let start = start.min(end);
+    let child = list.values().slice(start, end - start);
+    let values = cast_with_options(&child, to.data_type(), cast_options)?;
+    let rebase = |o: &O| O::usize_as(o.as_usize().clamp(start, end) - start);
+    let offsets: arrow_buffer::ScalarBuffer<O> = list.offsets().iter().map(rebase).collect();
     Ok(Arc::new(GenericListViewArray::<O>::try_new(
         to.clone(),
-        list.offsets().clone(),
+        offsets,
         list.sizes().clone(),
         values,
         list.nulls().cloned(),
